@@ -20,7 +20,7 @@ func init() {
 			"(R3.2) inside DoTrafficRouting the provider's EnsureRoutes is reachable only after the grace wait, with non-empty revisions, an existing canary Service, and never in the same pass as a Service create/patch (constant-flag-folding reachability), and done is returned only after EnsureRoutes verified; " +
 			"(R3.3) in every NetworkProvider.EnsureRoutes implementation (discovered via types.Implements) no path that performed a route write can return verified=true, and compareAndUpdateObject reports updated on every successful write; " +
 			"(R3.4) in both step machines, when the first step configures traffic, the Upgrade state is reachable only through PatchStableService's success edges (err==nil, retry==false) unless canary Service generation is disabled.",
-		NotDecided: "that the gateway implementation honours the configured weight; numeric equality 'share equals the step value' (the (100-w,w) form is decided under C13 R13.2); Lua-computed shares (C15).",
+		NotDecided:  "that the gateway implementation honours the configured weight; numeric equality 'share equals the step value' (the (100-w,w) form is decided under C13 R13.2); Lua-computed shares (C15).",
 		Assumptions: []string{"route writes are calls of controller-runtime client Create/Update/Patch/Delete (also inside closures handed to retry helpers) found through the resolved callee; customController.storeObject is exempt by symbol: it snapshots the original into an annotation and does not alter routing"},
 	})
 }
@@ -262,7 +262,7 @@ func checkDoTrafficRouting(c *Ctx, fn *ssa.Function) {
 	}
 	type req struct {
 		key, what string
-		cuts     []FactM
+		cuts      []FactM
 	}
 	reqs := []req{
 		{"grace-wait", "the grace period since the last workload/Service change has elapsed (or there was no change)",
